@@ -1458,6 +1458,20 @@ class Machine:
             return any(ts) if name == "any" else all(ts)
         if name == "sum" and len(args) == 1 and isinstance(args[0], (list, tuple)) and all(isinstance(x, (bool, int)) for x in args[0]):
             return sum(int(x) for x in args[0])
+        if name == "getattr" and len(args) in (2, 3) and isinstance(args[1], str):
+            # getattr(x, "name") with a name known on this path is the attribute read x.name
+            tmp = self.fresh("__ga")
+            env2 = dict(env)
+            env2[tmp] = args[0]
+            node = ast.Attribute(value=ast.Name(id=tmp, ctx=ast.Load()), attr=args[1], ctx=ast.Load())
+            ast.copy_location(node, e)
+            ast.copy_location(node.value, e)
+            try:
+                return self.ev(node, env2, fi)
+            except SimRaise:
+                if len(args) == 3:
+                    return args[2]
+                raise
         if name in ("sum", "min", "max", "abs", "any", "all", "sorted", "zip", "enumerate", "dict", "list", "tuple", "set", "str", "repr", "getattr", "hasattr", "print", "type", "id", "round"):
             if name == "hasattr":
                 return Opaque("hasattr")
@@ -1494,7 +1508,9 @@ class Machine:
             return NAN
         if full == "numpy.arange" and len(args) == 1:
             return _ArangeLen(args[0])
-        if full == "numpy.hstack" and args:
+        if full == "numpy.append" and len(args) == 2 and not kwargs:
+            full, args = "numpy.hstack", [(args[0], args[1])]  # 1-D append is concatenation
+        if full in ("numpy.hstack", "numpy.concatenate") and args and not (full == "numpy.concatenate" and kwargs.get("axis") not in (None, 0)):
             parts = args[0]
             if isinstance(parts, (tuple, list)):
                 out = []
